@@ -7,7 +7,7 @@ from hypothesis import strategies as st
 from .. import gen, ref
 from ..core import Clause, Out, Property
 from ..env import L
-from ..lib import F, Q, S, ahash
+from ..lib import F, Q, S, ahash, case_flag, quiet
 
 U_ = ref.U
 RANK_REL = 1e-10
@@ -114,20 +114,23 @@ def penrose(A, X):
 def run_solver(out, order, A, gamma, max_iter, tol, compute_residuals=True, sparse=False, warmup=None):
     """warmup: None, or a matrix on which the SAME solver object is called first (its result is discarded): the
     measured call must not depend on it (every call starts from X0 = A^H/||A||_F^2)."""
+    vb = case_flag(A, 6)          # one case in six runs the verbose path: same iterates, same histories
+    if vb:
+        out.label("verbose=True")
     if order == 3:
-        solver = L.solver.HigherOrderNewtonSchulzPseudoinverse(max_iter=max_iter, tol=tol, verbose=False)
+        solver = L.solver.HigherOrderNewtonSchulzPseudoinverse(max_iter=max_iter, tol=tol, verbose=vb)
         site = "HigherOrderNS"
     else:
-        solver = L.solver.NewtonSchulzPseudoinverse(gamma=gamma, max_iter=max_iter, tol=tol, verbose=False,
+        solver = L.solver.NewtonSchulzPseudoinverse(gamma=gamma, max_iter=max_iter, tol=tol, verbose=vb,
                                                      compute_residuals=compute_residuals)
         site = "NewtonSchulz"
     if warmup is not None:
-        okw, _ = out.call(site + ".compute(warm-up call)", solver.compute, Q(warmup))
+        okw, _ = out.call(site + ".compute(warm-up call)", quiet, solver.compute, Q(warmup))
         if not okw:
             return site, None
     arg = S(A) if sparse else Q(A)
     h0 = ahash(arg)
-    ok, r = out.call(site + ".compute", solver.compute, arg)
+    ok, r = out.call(site + ".compute", quiet, solver.compute, arg)
     if not ok:
         return site, None
     out.true(site + ":argument unchanged", ahash(arg) == h0, "input modified")
